@@ -330,6 +330,14 @@ class _Spelling(ast.NodeTransformer):
       is_elif = in_chain or (len(s.orelse) == 1 and isinstance(
           s.orelse[0], ast.If))
       swap = False
+      if in_chain and s.orelse and not (len(s.orelse) == 1 and isinstance(
+          s.orelse[0], ast.If)) and (a_term or b_term) and \
+          _is_negative_test(s.test):
+        # last arm of an elif chain: polarity decides (positive test first)
+        s.test = _negate(s.test)
+        s.body, s.orelse = s.orelse, s.body
+        a_term, b_term = b_term, a_term
+        b = s.orelse
       if a_term and b_term and not is_elif:
         sa, sb = self._size(s.body), self._size(b)
         swap = sb < sa or (sb == sa and _is_negative_test(s.test))
